@@ -1,7 +1,7 @@
 (* Prop_C06.v — property C06 (soil water content stays within physical bounds), stated about
    WaterModel / the groundwater field-capacity model read over the reals.  Only statements here. *)
 From Coq Require Import ZArith Reals List Bool PrimFloat.
-From Hermes Require Import Num RUtil WaterModel WaterProofs WaterBounds WaterDayBounds.
+From Hermes Require Import Num RUtil WaterModel WaterProofs WaterBounds WaterDayBounds EvatraModel EvatraProofs DayWaterModel DayWaterProofs DayBounds.
 Local Open Scope R_scope.
 Set Warnings "-inexact-float".
 
@@ -68,6 +68,23 @@ Theorem C06_lower_bound_day_nonevap : forall (x : water_in (T:=R)) (n k : nat),
   Forall (fun o => forall i, (i < n)%nat -> nth i (wi_wmin x) 0 / 3 <= get 0 (wo_wg1 o) i) (water_iter (S k) x).
 Proof. exact day_lower_nonevap_lemma. Qed.
 
+(* the same for the COMPOSED day (irrigation glue, Evatra, the model's own sub-step choice, all Water sub-steps):
+   composition of C08 (Evatra's uptake is non-negative), C01 (the chosen sub-steps cover exactly one day) and the
+   induction above; [evatra_wf] is the input class of the C08 theorems *)
+Theorem C06_lower_bound_day_composed : forall (x : day_in (T:=R)) (n : nat),
+  day_wf x n ->
+  evatra_wf (evatra_in_of x (day_regen x)) ->
+  let o := day_water x in
+  0 <= eo_fluss0 (do_ev o) ->
+  0 <= di_draifak x <= 1 -> Forall (fun c => 0 <= c) (di_caps x) ->
+  Forall (fun wmin => 0 <= wmin) (di_wmin x) ->
+  Forall2 (fun w wmin => wmin / 3 <= w) (di_w x) (di_wmin x) ->
+  Forall2 (fun wg0 wmin => wmin / 3 <= wg0) (di_wg1 x) (di_wmin x) ->
+  (forall i, (i < n)%nat ->
+     nth i (day_tp o) 0 * (1 - do_wdt o) <= (nth i (di_w x) 0 - nth i (di_wmin x) 0 / 3) * 10) ->
+  Forall (fun o' => forall i, (i < n)%nat -> nth i (di_wmin x) 0 / 3 <= get 0 (wo_wg1 o') i) (do_outs o).
+Proof. exact day_lower_composed_lemma. Qed.
+
 (* days WITH net evaporation: for a freely chosen evaporation profile the day-level bound is false (binary64, the
    semantics the code runs; the same input is replayed on the real kernel on every run).  Evatra's own profile
    (shares proportional to the water above the limit) is checked on every traced day and in a directed search. *)
@@ -80,6 +97,7 @@ Proof. exact evap_day_refuted_lemma. Qed.
 
 Print Assumptions C06_upper_bound.
 Print Assumptions C06_lower_bound_day_nonevap.
+Print Assumptions C06_lower_bound_day_composed.
 Print Assumptions C06_lower_bound_day_evap_refuted.
 Print Assumptions C06_upper_bound_binary64.
 Print Assumptions C06_lower_bound_substep.
